@@ -31,6 +31,11 @@ def jobs(tier):
         for sc in scen[:7]:
             js.append({'name': 'two faults Build %s' % '/'.join(sc), 'harness': (H, 'h_faults'),
                        'params': {'nlines': len(sc), 'menu_name': 'small', 'mode': 'Build', 'fixed': sc, 'faults': 2}, 'split': 8})
+    # chunks larger than the BufWriter buffer go to the file with direct writes (which may be short): no byte may be lost
+    for tr in (True, False):
+        js.append({'name': 'faults Build include of a 9000-byte file trailing=%s' % tr, 'harness': (H, 'h_faults'),
+                   'params': {'nlines': 1, 'menu_name': 'small', 'mode': 'Build', 'fixed': ['include f'], 'faults': 1, 'big_include': 9000,
+                              'trailing': tr}})
     # verify mismatch (tampered / extended / truncated / missing output) fails the run
     for nl in (0, 1):
         for pl in ([None, 0, 1, 2, 3] if quick else [None, 0, 1, 2, 3, 4, 5]):
@@ -67,7 +72,7 @@ def replay(native, v):
     cli = ppreplay.cli_path()
     detail = {'mode': mode, 'source': repr(ppreplay.conc(d['source'], model)), 'injected': faults}
     bad = False
-    spec, env = ppreplay.spec_concrete(d, model, True)
+    spec, env = ppreplay.spec_concrete(d, model, d.get('trailing', True))
     if not faults:
         sh = [] if mode == 'Clean' else ['-s', os.path.join(bind, 'recsh') + ' -c']
         r = subprocess.run([cli] + list(MODE_ARGS[mode]) + ['-q', '-j', '1'] + sh + ['a.txt.txtpp'], cwd=work, env=e, capture_output=True)
@@ -86,6 +91,14 @@ def replay(native, v):
             r = subprocess.run([cli] + list(MODE_ARGS[mode]) + ['-q', '-j', '1', 'a.txt.txtpp'], cwd=work, env=e, capture_output=True)
             detail.update({'rc': r.returncode, 'fault': '%s -> /dev/full (ENOSPC on write/flush)' % target})
             bad = (r.returncode == 0 and mode != 'Clean')
+        elif op == 'short-write' and target:
+            # a file-size limit inside the large chunk makes write(2) return a short count
+            args = ' '.join([cli] + list(MODE_ARGS[mode]) + ['-q', '-j', '1'] + ([] if d.get('trailing', True) else ['-n']) + ['a.txt.txtpp'])
+            r = subprocess.run(['bash', '-c', 'trap "" XFSZ; ulimit -f 8; exec ' + args], cwd=work, env=e, capture_output=True)
+            out = open(os.path.join(work, 'a.txt'), 'rb').read() if os.path.exists(os.path.join(work, 'a.txt')) else None
+            detail.update({'rc': r.returncode, 'fault': 'RLIMIT_FSIZE 8 KiB (short write inside the chunk)',
+                           'output_bytes': None if out is None else len(out), 'expected_bytes': len(bytes(spec.output))})
+            bad = (r.returncode == 0 and out != bytes(spec.output))
         elif op in ('create',) and target:
             os.chmod(work, 0o555)
             try:
